@@ -206,7 +206,8 @@ def run_case(mod, case, ctx, res, deadline=None):
     res['evaluations'] += 1
     limit = getattr(mod, 'CASE_TIMEOUT', 120)
     signal.signal(signal.SIGALRM, _alarm)
-    signal.setitimer(signal.ITIMER_REAL, limit)
+    # repeating: library code has bare 'except:' blocks that can swallow the first delivery
+    signal.setitimer(signal.ITIMER_REAL, limit, 0.25)
     try:
         mod.check(case, ctx)
         return None
